@@ -442,6 +442,7 @@ func checkStreamAgainstLog(prop string, rec *WatchRec, log []Commit, live bool, 
 				rec.Name, rec.Spec, effInitial(h), maxLag, renderEvents(rec.Events))
 		}
 		out.probe("errored-legit")
+		out.fault("history-overrun-errored")
 	} else if maxLag > 0 {
 		out.probeN("lagged-no-error", 1)
 	}
